@@ -1,6 +1,10 @@
 import NucsProofs.Basic
 /-!
   element_iv, element_lic, element_liv, relation.
+
+  For each `a ∈ {relation, elementIv, elementLic, elementLiv}`:
+  `sound_a`, `groundOk_a`, `entailOk_a`, `contractMono_a`, `safe_a`, `trigOk_a`, `exact_a`.
+  Helper lemmas live under the `Elem.` prefix.
 -/
 namespace Nucs
 
@@ -183,7 +187,7 @@ theorem Elem.hull_le (rows : List (List Int)) (B : Box) (h : rows ≠ [])
   have b1 := inBox_get k (hin r1 hr1) hk
   have b2 := inBox_get k (hin r2 hr2) hk
   simp only [column] at *
-  constructor <;> simp only [] <;> omega
+  constructor <;> omega
 
 theorem runAlg_relation (ps : List Int) (B : Box) : runAlg .relation ps B = .ok (relation ps B) := rfl
 
@@ -206,5 +210,1298 @@ theorem sound_relation : Sound .relation := by
       simp only [rel, inBox_length ht] at hrel
       exact Elem.row_in_hull _ _ _ (Elem.mem_relRows.mpr ⟨hrel, ht⟩) (inBox_length ht)
     · subst h; split at h1 <;> cases h1
+
+theorem groundOk_relation : GroundOk .relation := by
+  intro ps B st B' t _ _ hrun hst hB'
+  rw [runAlg_relation] at hrun; injection hrun with hrun
+  by_cases hr : Elem.relRows ps B = []
+  · rw [Elem.relation_nil _ _ hr] at hrun; injection hrun with h1 _; exact absurd h1.symm hst
+  · rw [Elem.relation_cons _ _ hr] at hrun
+    injection hrun with _ h2
+    obtain ⟨r, hrm⟩ := List.exists_mem_of_ne_nil _ hr
+    obtain ⟨hch, hrB⟩ := Elem.mem_relRows.mp hrm
+    have := Elem.row_in_hull B.length _ r hrm (inBox_length hrB)
+    rw [h2, hB'] at this
+    have e := eq_of_inBox_pointBox this
+    subst e
+    simp only [relW, rel, inBox_length hrB]
+    exact hch
+
+theorem entailOk_relation : EntailOk .relation := by
+  intro ps B B' _ _ hrun t ht
+  rw [runAlg_relation] at hrun; injection hrun with hrun
+  by_cases hr : Elem.relRows ps B = []
+  · rw [Elem.relation_nil _ _ hr] at hrun; injection hrun with h1 _; cases h1
+  · rw [Elem.relation_cons _ _ hr] at hrun
+    injection hrun with h1 h2
+    subst h2
+    split at h1
+    · rename_i hlen
+      match hrows : Elem.relRows ps B, hlen with
+      | [r], _ =>
+        have hrm : r ∈ Elem.relRows ps B := by rw [hrows]; simp
+        obtain ⟨hch, hrB⟩ := Elem.mem_relRows.mp hrm
+        rw [hrows] at ht
+        have hl := inBox_length ht
+        rw [Elem.hull_length] at hl
+        have : t = r := by
+          apply Elem.list_ext_getI (by rw [hl, inBox_length hrB])
+          intro k hk
+          have := inBox_get k ht (by rw [Elem.hull_length]; omega)
+          rw [Elem.getDom_hull _ _ _ (by omega)] at this
+          simp only [column, List.map_cons, List.map_nil, minL, maxL] at this
+          omega
+        subst this
+        simp only [rel, hl]
+        exact hch
+    · cases h1
+
+theorem contractMono_relation : ContractMono .relation := by
+  intro ps B B' hc hle
+  simp only [Contract] at *
+  rw [Box.le_length hle]; exact hc
+
+theorem safe_relation : Safe .relation := fun ps B _ _ => ⟨_, runAlg_relation ps B⟩
+
+theorem trigOk_relation : TrigOk .relation :=
+  Elem.trigOk_of_minMax _ sound_relation (fun _ _ _ => rfl)
+
+theorem exact_relation : Exact .relation := by
+  intro ps B st B' _ _ hrun hst
+  rw [runAlg_relation] at hrun; injection hrun with hrun
+  by_cases hr : Elem.relRows ps B = []
+  · rw [Elem.relation_nil _ _ hr] at hrun; injection hrun with h1 _; exact absurd h1.symm hst
+  · rw [Elem.relation_cons _ _ hr] at hrun
+    injection hrun with _ h2
+    have hin : ∀ r ∈ Elem.relRows ps B, inBox r B' ∧ rel .relation ps r := by
+      intro r hrm
+      obtain ⟨hch, hrB⟩ := Elem.mem_relRows.mp hrm
+      refine ⟨h2 ▸ Elem.row_in_hull B.length _ r hrm (inBox_length hrB), ?_⟩
+      simp only [rel, inBox_length hrB]; exact hch
+    have hlen : B'.length = B.length := by rw [← h2, Elem.hull_length]
+    constructor
+    · intro k hk
+      have hd : getDom B' k = (minL (column (Elem.relRows ps B) k), maxL (column (Elem.relRows ps B) k)) := by
+        rw [← h2]; exact Elem.getDom_hull _ _ _ (by omega)
+      have h1 := Elem.minL_mem _ (Elem.column_ne_nil (Elem.relRows ps B) k hr)
+      have h2 := Elem.maxL_mem _ (Elem.column_ne_nil (Elem.relRows ps B) k hr)
+      simp only [column, List.mem_map] at h1 h2
+      obtain ⟨r1, hr1, e1⟩ := h1
+      obtain ⟨r2, hr2, e2⟩ := h2
+      rw [hd]
+      exact ⟨⟨r1, (hin r1 hr1).1, (hin r1 hr1).2, e1⟩, ⟨r2, (hin r2 hr2).1, (hin r2 hr2).2, e2⟩⟩
+    · have hrows : Elem.relRows ps B' = Elem.relRows ps B := by
+        unfold Elem.relRows
+        rw [hlen]
+        apply List.filter_congr
+        intro r hrc
+        have hle : Box.le B' B := h2 ▸ Elem.hull_le _ _ hr (fun r hr => (Elem.mem_relRows.mp hr).2)
+        rw [Bool.eq_iff_iff, Elem.tupleIn_iff, Elem.tupleIn_iff]
+        exact ⟨fun h => inBox_of_le h hle, fun h => (hin r (Elem.mem_relRows.mpr ⟨hrc, h⟩)).1⟩
+      refine ⟨if (Elem.relRows ps B).length == 1 then .ent else .cons, ?_, by split <;> simp⟩
+      rw [runAlg_relation, Elem.relation_cons _ _ (by rw [hrows]; exact hr), hrows, hlen, h2]
+
+/-! ### candidate indices: sorted lists of naturals -/
+
+theorem Elem.mem_idxRange (i : Dom) (len k : Nat) :
+    k ∈ idxRange i len ↔ i.1 ≤ (k : Int) ∧ (k : Int) ≤ i.2 ∧ k < len := by
+  simp only [idxRange, List.mem_map, List.mem_range]
+  constructor
+  · rintro ⟨a, ha, rfl⟩; omega
+  · intro h; exact ⟨k - (max i.1 0).toNat, by omega, by omega⟩
+
+theorem Elem.idxRange_sorted (i : Dom) (len : Nat) : (idxRange i len).Pairwise (· < ·) := by
+  simp only [idxRange]
+  rw [List.pairwise_map]
+  exact List.Pairwise.imp (fun h => by omega) List.pairwise_lt_range
+
+theorem Elem.getLastD_mem : ∀ (l : List Nat) (d : Nat), l ≠ [] → l.getLastD d ∈ l
+  | [], _, h => absurd rfl h
+  | [a], d, _ => by simp
+  | a :: b :: as, d, _ => by
+    rw [List.getLastD_cons]; exact List.mem_cons_of_mem _ (Elem.getLastD_mem (b :: as) a (by simp))
+
+theorem Elem.le_getLastD : ∀ (l : List Nat) (d : Nat), l.Pairwise (· < ·) → ∀ k ∈ l, k ≤ l.getLastD d
+  | [], _, _, k, h => by simp at h
+  | [a], d, _, k, h => by simp at h; simp [h]
+  | a :: b :: as, d, hp, k, h => by
+    rw [List.getLastD_cons]
+    have hp' := List.pairwise_cons.mp hp
+    have ih := Elem.le_getLastD (b :: as) a hp'.2
+    rcases List.mem_cons.mp h with h | h
+    · subst h; have := hp'.1 _ (Elem.getLastD_mem (b :: as) k (by simp)); omega
+    · exact ih k h
+
+/-- the facts used about `S = s0 :: r` (strictly increasing) and `sl = S.getLastD s0` -/
+theorem Elem.sorted_facts (s0 : Nat) (r : List Nat) (hp : (s0 :: r).Pairwise (· < ·)) :
+    (s0 :: r).getLastD s0 ∈ s0 :: r ∧
+    (∀ k ∈ s0 :: r, s0 ≤ k ∧ k ≤ (s0 :: r).getLastD s0) ∧
+    (s0 = (s0 :: r).getLastD s0 → r = []) := by
+  refine ⟨Elem.getLastD_mem _ _ (by simp), fun k hk => ⟨?_, Elem.le_getLastD _ _ hp k hk⟩, ?_⟩
+  · rcases List.mem_cons.mp hk with h | h
+    · omega
+    · exact Nat.le_of_lt ((List.pairwise_cons.mp hp).1 k h)
+  · intro h
+    cases r with
+    | nil => rfl
+    | cons b as =>
+      rw [List.getLastD_cons] at h
+      have := (List.pairwise_cons.mp hp).1 _ (Elem.getLastD_mem (b :: as) s0 (by simp))
+      omega
+
+/-- strictly increasing lists with the same members are equal -/
+theorem Elem.sorted_ext : ∀ (l1 l2 : List Nat), l1.Pairwise (· < ·) → l2.Pairwise (· < ·) →
+    (∀ k, k ∈ l1 ↔ k ∈ l2) → l1 = l2
+  | [], [], _, _, _ => rfl
+  | [], b :: _, _, _, h => by have := (h b).mpr (by simp); simp at this
+  | a :: _, [], _, _, h => by have := (h a).mp (by simp); simp at this
+  | a :: as, b :: bs, h1, h2, h => by
+    have p1 := List.pairwise_cons.mp h1
+    have p2 := List.pairwise_cons.mp h2
+    have hab : a = b := by
+      have ha := (h a).mp (by simp)
+      have hb := (h b).mpr (by simp)
+      rcases List.mem_cons.mp ha with ha | ha
+      · exact ha
+      · rcases List.mem_cons.mp hb with hb | hb
+        · exact hb.symm
+        · have := p1.1 b hb; have := p2.1 a ha; omega
+    subst hab
+    congr 1
+    apply Elem.sorted_ext as bs p1.2 p2.2
+    intro k
+    constructor
+    · intro hk
+      have := (h k).mp (List.mem_cons_of_mem _ hk)
+      rcases List.mem_cons.mp this with e | e
+      · have := p1.1 k hk; omega
+      · exact e
+    · intro hk
+      have := (h k).mpr (List.mem_cons_of_mem _ hk)
+      rcases List.mem_cons.mp this with e | e
+      · have := p2.1 k hk; omega
+      · exact e
+
+/-! ### element_iv -/
+
+def Elem.ivS (l : List Int) (i v : Dom) : List Nat :=
+  (idxRange i l.length).filter (fun k => decide (v.1 ≤ getI l k) && decide (getI l k ≤ v.2))
+
+theorem Elem.mem_ivS (l : List Int) (i v : Dom) (k : Nat) :
+    k ∈ Elem.ivS l i v ↔
+      (i.1 ≤ (k : Int) ∧ (k : Int) ≤ i.2 ∧ k < l.length) ∧ v.1 ≤ getI l k ∧ getI l k ≤ v.2 := by
+  simp [Elem.ivS, List.mem_filter, Elem.mem_idxRange]
+
+theorem Elem.ivS_sorted (l : List Int) (i v : Dom) : (Elem.ivS l i v).Pairwise (· < ·) :=
+  List.Pairwise.filter _ (Elem.idxRange_sorted _ _)
+
+theorem Elem.elementIv_nil (l : List Int) (i v : Dom) (h : Elem.ivS l i v = []) :
+    elementIv l [i, v] = (.inc, [i, v]) := by
+  unfold Elem.ivS at h
+  have h0 : getDom [i, v] 0 = i := rfl
+  have h1 : getDom [i, v] 1 = v := rfl
+  simp only [elementIv, h0, h1, h]
+
+theorem Elem.elementIv_cons (l : List Int) (i v : Dom) (s0 : Nat) (r : List Nat)
+    (h : Elem.ivS l i v = s0 :: r) :
+    elementIv l [i, v] =
+      ((if s0 == (s0 :: r).getLastD s0 then Status.ent else Status.cons),
+       [(((s0 : Nat) : Int), (((s0 :: r).getLastD s0 : Nat) : Int)),
+        (max v.1 (minL ((s0 :: r).map (getI l))), min v.2 (maxL ((s0 :: r).map (getI l))))]) := by
+  unfold Elem.ivS at h
+  have h0 : getDom [i, v] 0 = i := rfl
+  have h1 : getDom [i, v] 1 = v := rfl
+  simp only [elementIv, h0, h1, h]
+
+theorem runAlg_elementIv (ps : List Int) (B : Box) : runAlg .elementIv ps B = .ok (elementIv ps B) := rfl
+
+/-- everything needed about the supported indices `S = s0 :: r` of element_iv -/
+theorem Elem.iv_facts (l : List Int) (i v : Dom) (s0 : Nat) (r : List Nat)
+    (h : Elem.ivS l i v = s0 :: r) :
+    (∀ k ∈ s0 :: r, ((i.1 ≤ (k : Int) ∧ (k : Int) ≤ i.2 ∧ k < l.length) ∧ v.1 ≤ getI l k ∧ getI l k ≤ v.2) ∧
+      (s0 ≤ k ∧ k ≤ (s0 :: r).getLastD s0) ∧
+      minL ((s0 :: r).map (getI l)) ≤ getI l k ∧ getI l k ≤ maxL ((s0 :: r).map (getI l))) ∧
+    (s0 ∈ s0 :: r ∧ (s0 :: r).getLastD s0 ∈ s0 :: r) ∧
+    ((∃ k ∈ s0 :: r, getI l k = minL ((s0 :: r).map (getI l))) ∧
+     (∃ k ∈ s0 :: r, getI l k = maxL ((s0 :: r).map (getI l)))) ∧
+    (s0 = (s0 :: r).getLastD s0 → r = []) := by
+  have hp := Elem.ivS_sorted l i v
+  rw [h] at hp
+  obtain ⟨f1, f2, f3⟩ := Elem.sorted_facts s0 r hp
+  refine ⟨fun k hk => ⟨?_, f2 k hk, ?_, ?_⟩, ⟨by simp, f1⟩, ⟨?_, ?_⟩, f3⟩
+  · rw [← h] at hk; exact (Elem.mem_ivS l i v k).mp hk
+  · exact Elem.minL_le _ _ (List.mem_map.mpr ⟨k, hk, rfl⟩)
+  · exact Elem.le_maxL _ _ (List.mem_map.mpr ⟨k, hk, rfl⟩)
+  · have := Elem.minL_mem ((s0 :: r).map (getI l)) (by simp)
+    exact List.mem_map.mp this
+  · have := Elem.maxL_mem ((s0 :: r).map (getI l)) (by simp)
+    exact List.mem_map.mp this
+
+theorem Elem.getI_of_getElem? {l : List Int} {k : Nat} {b : Int} (h : l[k]? = some b) :
+    k < l.length ∧ getI l k = b := by
+  obtain ⟨hk, e⟩ := List.getElem?_eq_some_iff.mp h
+  exact ⟨hk, by rw [Elem.getI_eq l k hk]; exact e⟩
+
+theorem Elem.getElem?_of_getI {l : List Int} {k : Nat} (hk : k < l.length) :
+    l[k]? = some (getI l k) := by
+  rw [Elem.getI_eq l k hk]; exact List.getElem?_eq_getElem hk
+
+/-- a solution of element_iv inside `[i, v]` has its index among the supported ones -/
+theorem Elem.iv_sol_mem (l : List Int) (i v : Dom) (t : List Int) (ht : inBox t [i, v])
+    (hrel : rel .elementIv l t) :
+    ∃ a b : Int, t = [a, b] ∧ 0 ≤ a ∧ a.toNat ∈ Elem.ivS l i v ∧ getI l a.toNat = b := by
+  match t, ht with
+  | [a, b], ht =>
+    simp only [inBox, inDom] at ht
+    simp only [rel] at hrel
+    have e0 : getI [a, b] 0 = a := rfl
+    have e1 : getI [a, b] 1 = b := rfl
+    rw [e0, e1] at hrel
+    obtain ⟨h0, hget⟩ := hrel
+    obtain ⟨hk, e⟩ := Elem.getI_of_getElem? hget
+    refine ⟨a, b, rfl, h0, (Elem.mem_ivS l i v _).mpr ⟨⟨by omega, by omega, hk⟩, by omega, by omega⟩, e⟩
+
+theorem sound_elementIv : Sound .elementIv := by
+  intro ps B st B' hc hne hrun
+  rw [runAlg_elementIv] at hrun; injection hrun with hrun
+  simp only [Contract] at hc
+  obtain ⟨hl, _⟩ := hc
+  match B, hl, hne, hrun with
+  | [i, v], _, hne, hrun =>
+    cases hS : Elem.ivS ps i v with
+    | nil =>
+      rw [Elem.elementIv_nil _ _ _ hS] at hrun
+      injection hrun with h1 h2; subst h1; subst h2
+      refine ⟨fun h => absurd rfl h, fun _ t ht hrel => ?_⟩
+      obtain ⟨a, b, _, _, hm, _⟩ := Elem.iv_sol_mem ps i v t ht hrel
+      rw [hS] at hm; simp at hm
+    | cons s0 r =>
+      rw [Elem.elementIv_cons _ _ _ _ _ hS] at hrun
+      injection hrun with h1 h2
+      obtain ⟨F1, ⟨F2a, F2b⟩, ⟨⟨k1, hk1, e1⟩, ⟨k2, hk2, e2⟩⟩, _⟩ := Elem.iv_facts ps i v s0 r hS
+      have hv : v.1 ≤ v.2 := hne v (by simp)
+      have A0 := F1 s0 F2a
+      have Al := F1 _ F2b
+      have A1 := F1 k1 hk1
+      have A2 := F1 k2 hk2
+      refine ⟨fun _ => ⟨?_, ?_, ?_⟩, fun h => ?_⟩
+      · subst h2
+        refine ⟨⟨?_, ?_⟩, ⟨?_, ?_⟩, trivial⟩ <;> simp only [] <;> omega
+      · subst h2
+        intro d hd
+        simp only [List.mem_cons, List.not_mem_nil, or_false] at hd
+        rcases hd with rfl | rfl <;> simp only [] <;> omega
+      · intro t ht hrel
+        obtain ⟨a, b, rfl, ha, hm, hb⟩ := Elem.iv_sol_mem ps i v t ht hrel
+        rw [hS] at hm
+        have At := F1 _ hm
+        subst h2
+        simp only [inBox, inDom, and_true]
+        omega
+      · subst h; split at h1 <;> cases h1
+
+theorem entailOk_elementIv : EntailOk .elementIv := by
+  intro ps B B' hc _ hrun t ht
+  rw [runAlg_elementIv] at hrun; injection hrun with hrun
+  simp only [Contract] at hc
+  obtain ⟨hl, _⟩ := hc
+  match B, hl, hrun with
+  | [i, v], _, hrun =>
+    cases hS : Elem.ivS ps i v with
+    | nil =>
+      rw [Elem.elementIv_nil _ _ _ hS] at hrun
+      injection hrun with h1 _; cases h1
+    | cons s0 r =>
+      rw [Elem.elementIv_cons _ _ _ _ _ hS] at hrun
+      injection hrun with h1 h2
+      split at h1
+      · rename_i heq
+        have heq : s0 = (s0 :: r).getLastD s0 := by simpa using heq
+        obtain ⟨F1, ⟨F2a, F2b⟩, ⟨⟨k1, hk1, e1⟩, ⟨k2, hk2, e2⟩⟩, _⟩ := Elem.iv_facts ps i v s0 r hS
+        have A0 := F1 s0 F2a
+        have A1 := F1 k1 hk1
+        have A2 := F1 k2 hk2
+        have : k1 = s0 := by omega
+        subst this
+        have : k2 = k1 := by omega
+        subst this
+        subst h2
+        match t, ht with
+        | [a, b], ht =>
+          simp only [inBox, inDom, and_true] at ht
+          simp only [rel]
+          have e0 : getI [a, b] 0 = a := rfl
+          have e1 : getI [a, b] 1 = b := rfl
+          rw [e0, e1]
+          have ha : a.toNat = k2 := by omega
+          refine ⟨by omega, ?_⟩
+          rw [ha, Elem.getElem?_of_getI A0.1.1.2.2]
+          congr 1
+          omega
+      · cases h1
+
+theorem groundOk_elementIv : GroundOk .elementIv := by
+  intro ps B st B' t hc hne hrun hst hB'
+  have hent : st = .ent := by
+    rw [runAlg_elementIv] at hrun; injection hrun with hrun
+    simp only [Contract] at hc
+    obtain ⟨hl, _⟩ := hc
+    match B, hl, hrun with
+    | [i, v], _, hrun =>
+      cases hS : Elem.ivS ps i v with
+      | nil =>
+        rw [Elem.elementIv_nil _ _ _ hS] at hrun
+        injection hrun with h1 _; exact absurd h1.symm hst
+      | cons s0 r =>
+        rw [Elem.elementIv_cons _ _ _ _ _ hS] at hrun
+        injection hrun with h1 h2
+        rw [hB'] at h2
+        have hlt : t.length = 2 := by
+          have := congrArg List.length h2; simp [pointBox] at this; omega
+        match t, hlt, h2 with
+        | [a, b], _, h2 =>
+          simp only [pointBox, List.map_cons, List.map_nil, List.cons.injEq, Prod.mk.injEq] at h2
+          have : s0 = (s0 :: r).getLastD s0 := by omega
+          rw [← h1, if_pos (by simpa using this)]
+  subst hent
+  subst hB'
+  exact entailOk_elementIv ps B _ hc hne hrun t (inBox_pointBox_self t)
+
+theorem contractMono_elementIv : ContractMono .elementIv := by
+  intro ps B B' hc hle
+  simp only [Contract] at *
+  rw [Box.le_length hle]; exact hc
+
+theorem safe_elementIv : Safe .elementIv := fun ps B _ _ => ⟨_, runAlg_elementIv ps B⟩
+
+theorem trigOk_elementIv : TrigOk .elementIv :=
+  Elem.trigOk_of_minMax _ sound_elementIv (fun _ _ _ => rfl)
+
+/-! ### boxes / tuples of the shape `xs ++ [y]` -/
+
+theorem Elem.dropLast_append_getLastD {α : Type} : ∀ (l : List α) (d : α), l ≠ [] →
+    l.dropLast ++ [l.getLastD d] = l
+  | [], _, h => absurd rfl h
+  | [a], _, _ => rfl
+  | a :: b :: as, d, _ => by
+    have := Elem.dropLast_append_getLastD (b :: as) a (by simp)
+    rw [List.getLastD_cons, List.dropLast_cons_cons, List.cons_append, this]
+
+theorem Elem.box_snoc (B : Box) (h : B ≠ []) : ∃ l i, B = l ++ [i] :=
+  ⟨B.front, B.back, (Elem.dropLast_append_getLastD B (0, 0) h).symm⟩
+
+theorem Elem.front_snoc (l : Box) (i : Dom) : Box.front (l ++ [i]) = l := by
+  simp [Box.front]
+
+theorem Elem.back_snoc (l : Box) (i : Dom) : Box.back (l ++ [i]) = i := by
+  simp [Box.back]
+
+theorem Elem.tFront_snoc (xs : List Int) (y : Int) : tFront (xs ++ [y]) = xs := by
+  simp [tFront]
+
+theorem Elem.tBack_snoc (xs : List Int) (y : Int) : tBack (xs ++ [y]) = y := by
+  simp [tBack]
+
+theorem Elem.inBox_snoc : ∀ (xs : List Int) (y : Int) (l : Box) (i : Dom),
+    inBox (xs ++ [y]) (l ++ [i]) ↔ inBox xs l ∧ inDom y i
+  | [], y, [], i => by simp [inBox]
+  | x :: xs, y, d :: l, i => by
+    simp only [List.cons_append, inBox, Elem.inBox_snoc xs y l i, and_assoc]
+  | [], y, d :: l, i => by
+    cases l <;> simp [inBox]
+  | x :: xs, y, [], i => by
+    cases xs <;> simp [inBox]
+
+theorem Elem.inBox_snoc_elim (t : List Int) (l : Box) (i : Dom) (h : inBox t (l ++ [i])) :
+    ∃ xs y, t = xs ++ [y] ∧ inBox xs l ∧ inDom y i := by
+  have hl := inBox_length h
+  have hne : t ≠ [] := by intro e; subst e; simp at hl
+  have e := (Elem.dropLast_append_getLastD t 0 hne).symm
+  rw [e] at h
+  exact ⟨_, _, e, (Elem.inBox_snoc _ _ _ _).mp h⟩
+
+theorem Elem.le_snoc : ∀ (l' : Box) (i' : Dom) (l : Box) (i : Dom),
+    Box.le (l' ++ [i']) (l ++ [i]) ↔ Box.le l' l ∧ (i.1 ≤ i'.1 ∧ i'.2 ≤ i.2)
+  | [], y, [], i => by simp [Box.le]
+  | x :: xs, y, d :: l, i => by
+    simp only [List.cons_append, Box.le, Elem.le_snoc xs y l i, and_assoc]
+  | [], y, d :: l, i => by
+    cases l <;> simp [Box.le]
+  | x :: xs, y, [], i => by
+    cases xs <;> simp [Box.le]
+
+theorem Elem.nonempty_snoc (l : Box) (i : Dom) : (l ++ [i]).Nonempty ↔ l.Nonempty ∧ i.1 ≤ i.2 := by
+  simp only [Box.Nonempty, List.mem_append, List.mem_singleton]
+  constructor
+  · intro h; exact ⟨fun d hd => h d (Or.inl hd), h i (Or.inr rfl)⟩
+  · rintro ⟨h1, h2⟩ d (hd | rfl)
+    · exact h1 d hd
+    · exact h2
+
+theorem Elem.inBox_set_dom : ∀ (xs : List Int) (l : Box) (k : Nat) (d : Dom), inBox xs l →
+    (k < l.length → inDom (getI xs k) d) → inBox xs (l.set k d)
+  | [], [], _, _, _, _ => by simp [inBox]
+  | x :: xs, e :: l, 0, d, h, hd => ⟨hd (by simp), h.2⟩
+  | x :: xs, e :: l, k + 1, d, h, hd =>
+    ⟨h.1, Elem.inBox_set_dom xs l k d h.2 (fun hk => hd (by simpa using hk))⟩
+  | [], _ :: _, _, _, h, _ => by simp [inBox] at h
+  | _ :: _, [], _, _, h, _ => by simp [inBox] at h
+
+theorem Elem.le_set : ∀ (l : Box) (k : Nat) (d : Dom),
+    (k < l.length → (getDom l k).1 ≤ d.1 ∧ d.2 ≤ (getDom l k).2) → Box.le (l.set k d) l
+  | [], _, _, _ => by simp [Box.le]
+  | e :: l, 0, d, hd => ⟨hd (by simp), Box.le_refl l⟩
+  | e :: l, k + 1, d, hd =>
+    ⟨⟨Int.le_refl _, Int.le_refl _⟩, Elem.le_set l k d (fun hk => hd (by simpa using hk))⟩
+
+theorem Elem.nonempty_set (l : Box) (k : Nat) (d : Dom) (hl : l.Nonempty) (hd : d.1 ≤ d.2) :
+    Box.Nonempty (l.set k d) := by
+  intro e he
+  rcases List.mem_or_eq_of_mem_set he with h | h
+  · exact hl e h
+  · subst h; exact hd
+
+theorem Elem.getDom_set_self (l : Box) (k : Nat) (d : Dom) (h : k < l.length) :
+    getDom (l.set k d) k = d := by
+  simp [getDom, List.getD, h]
+
+theorem Elem.getDom_set_ne (l : Box) (k j : Nat) (d : Dom) (h : k ≠ j) :
+    getDom (l.set k d) j = getDom l j := by
+  simp [getDom, List.getD, List.getElem?_set_ne h]
+
+theorem Elem.mem_pointBox (t : List Int) (d : Dom) (h : d ∈ pointBox t) : d.1 = d.2 := by
+  simp only [pointBox, List.mem_map] at h
+  obtain ⟨x, _, rfl⟩ := h; rfl
+
+/-! ### element_lic -/
+
+def Elem.licS (c : Int) (l : Box) (i : Dom) : List Nat :=
+  (idxRange i l.length).filter (fun k => decide ((getDom l k).1 ≤ c) && decide (c ≤ (getDom l k).2))
+
+theorem Elem.mem_licS (c : Int) (l : Box) (i : Dom) (k : Nat) :
+    k ∈ Elem.licS c l i ↔
+      (i.1 ≤ (k : Int) ∧ (k : Int) ≤ i.2 ∧ k < l.length) ∧ (getDom l k).1 ≤ c ∧ c ≤ (getDom l k).2 := by
+  simp [Elem.licS, List.mem_filter, Elem.mem_idxRange]
+
+theorem Elem.licS_sorted (c : Int) (l : Box) (i : Dom) : (Elem.licS c l i).Pairwise (· < ·) :=
+  List.Pairwise.filter _ (Elem.idxRange_sorted _ _)
+
+theorem Elem.elementLic_nil (ps : List Int) (l : Box) (i : Dom) (h : Elem.licS (getI ps 0) l i = []) :
+    elementLic ps (l ++ [i]) = (.inc, l ++ [i]) := by
+  unfold Elem.licS at h
+  simp only [elementLic, Elem.front_snoc, Elem.back_snoc, h]
+
+theorem Elem.elementLic_cons (ps : List Int) (l : Box) (i : Dom) (s0 : Nat) (r : List Nat)
+    (h : Elem.licS (getI ps 0) l i = s0 :: r) :
+    elementLic ps (l ++ [i]) =
+      if s0 == (s0 :: r).getLastD s0 then
+        (Status.ent, l.set s0 (getI ps 0, getI ps 0) ++ [(((s0 : Nat) : Int), (((s0 :: r).getLastD s0 : Nat) : Int))])
+      else (Status.cons, l ++ [(((s0 : Nat) : Int), (((s0 :: r).getLastD s0 : Nat) : Int))]) := by
+  unfold Elem.licS at h
+  simp only [elementLic, Elem.front_snoc, Elem.back_snoc, h]
+
+theorem runAlg_elementLic (ps : List Int) (B : Box) : runAlg .elementLic ps B = .ok (elementLic ps B) := rfl
+
+theorem Elem.rel_lic (ps xs : List Int) (y : Int) :
+    rel .elementLic ps (xs ++ [y]) ↔ 0 ≤ y ∧ xs[y.toNat]? = some (getI ps 0) := by
+  simp only [rel, Elem.tFront_snoc, Elem.tBack_snoc]
+
+/-- facts about the supported indices `S = s0 :: r` of element_lic -/
+theorem Elem.lic_facts (c : Int) (l : Box) (i : Dom) (s0 : Nat) (r : List Nat)
+    (h : Elem.licS c l i = s0 :: r) :
+    (∀ k ∈ s0 :: r, ((i.1 ≤ (k : Int) ∧ (k : Int) ≤ i.2 ∧ k < l.length) ∧
+        (getDom l k).1 ≤ c ∧ c ≤ (getDom l k).2) ∧
+      (s0 ≤ k ∧ k ≤ (s0 :: r).getLastD s0)) ∧
+    (s0 ∈ s0 :: r ∧ (s0 :: r).getLastD s0 ∈ s0 :: r) ∧
+    (s0 = (s0 :: r).getLastD s0 → r = []) := by
+  have hp := Elem.licS_sorted c l i
+  rw [h] at hp
+  obtain ⟨f1, f2, f3⟩ := Elem.sorted_facts s0 r hp
+  refine ⟨fun k hk => ⟨?_, f2 k hk⟩, ⟨by simp, f1⟩, f3⟩
+  rw [← h] at hk; exact (Elem.mem_licS c l i k).mp hk
+
+/-- a solution of element_lic inside `l ++ [i]` has its index among the supported ones -/
+theorem Elem.lic_sol_mem (ps : List Int) (l : Box) (i : Dom) (xs : List Int) (y : Int)
+    (hx : inBox xs l) (hy : inDom y i) (hrel : rel .elementLic ps (xs ++ [y])) :
+    0 ≤ y ∧ y.toNat ∈ Elem.licS (getI ps 0) l i ∧ getI xs y.toNat = getI ps 0 := by
+  obtain ⟨h0, hget⟩ := (Elem.rel_lic ps xs y).mp hrel
+  obtain ⟨hk, e⟩ := Elem.getI_of_getElem? hget
+  have hl := inBox_length hx
+  have hb := inBox_get y.toNat hx (by omega)
+  unfold inDom at hy
+  refine ⟨h0, (Elem.mem_licS _ l i _).mpr ⟨⟨by omega, by omega, by omega⟩, by omega, by omega⟩, e⟩
+
+theorem sound_elementLic : Sound .elementLic := by
+  intro ps B st B' hc hne hrun
+  rw [runAlg_elementLic] at hrun; injection hrun with hrun
+  simp only [Contract] at hc
+  obtain ⟨l, i, rfl⟩ := Elem.box_snoc B (by intro e; subst e; simp at hc)
+  obtain ⟨hnl, hni⟩ := (Elem.nonempty_snoc l i).mp hne
+  cases hS : Elem.licS (getI ps 0) l i with
+  | nil =>
+    rw [Elem.elementLic_nil _ _ _ hS] at hrun
+    injection hrun with h1 h2; subst h1; subst h2
+    refine ⟨fun h => absurd rfl h, fun _ t ht hrel => ?_⟩
+    obtain ⟨xs, y, rfl, hx, hy⟩ := Elem.inBox_snoc_elim t l i ht
+    obtain ⟨_, hm, _⟩ := Elem.lic_sol_mem ps l i xs y hx hy hrel
+    rw [hS] at hm; simp at hm
+  | cons s0 r =>
+    rw [Elem.elementLic_cons _ _ _ _ _ hS] at hrun
+    obtain ⟨F1, ⟨F2a, F2b⟩, _⟩ := Elem.lic_facts _ l i s0 r hS
+    have A0 := F1 s0 F2a
+    have Al := F1 _ F2b
+    split at hrun
+    · rename_i heq
+      have heq : s0 = (s0 :: r).getLastD s0 := by simpa using heq
+      injection hrun with h1 h2; subst h1; subst h2
+      refine ⟨fun _ => ⟨?_, ?_, ?_⟩, fun h => by cases h⟩
+      · rw [Elem.le_snoc]
+        exact ⟨Elem.le_set _ _ _ (fun _ => ⟨A0.1.2.1, A0.1.2.2⟩), by simp only []; omega⟩
+      · rw [Elem.nonempty_snoc]
+        exact ⟨Elem.nonempty_set _ _ _ hnl (Int.le_refl _), by simp only []; omega⟩
+      · intro t ht hrel
+        obtain ⟨xs, y, rfl, hx, hy⟩ := Elem.inBox_snoc_elim t l i ht
+        obtain ⟨h0, hm, e⟩ := Elem.lic_sol_mem ps l i xs y hx hy hrel
+        rw [hS] at hm
+        have At := F1 _ hm
+        have : y.toNat = s0 := by omega
+        rw [Elem.inBox_snoc]
+        refine ⟨Elem.inBox_set_dom _ _ _ _ hx (fun _ => ?_), ?_⟩
+        · rw [← this, e]; exact ⟨Int.le_refl _, Int.le_refl _⟩
+        · unfold inDom; simp only []; omega
+    · injection hrun with h1 h2; subst h1; subst h2
+      refine ⟨fun _ => ⟨?_, ?_, ?_⟩, fun h => by cases h⟩
+      · rw [Elem.le_snoc]
+        exact ⟨Box.le_refl _, by simp only []; omega⟩
+      · rw [Elem.nonempty_snoc]
+        exact ⟨hnl, by simp only []; omega⟩
+      · intro t ht hrel
+        obtain ⟨xs, y, rfl, hx, hy⟩ := Elem.inBox_snoc_elim t l i ht
+        obtain ⟨h0, hm, e⟩ := Elem.lic_sol_mem ps l i xs y hx hy hrel
+        rw [hS] at hm
+        have At := F1 _ hm
+        rw [Elem.inBox_snoc]
+        refine ⟨hx, ?_⟩
+        unfold inDom; simp only []; omega
+
+theorem entailOk_elementLic : EntailOk .elementLic := by
+  intro ps B B' hc _ hrun t ht
+  rw [runAlg_elementLic] at hrun; injection hrun with hrun
+  simp only [Contract] at hc
+  obtain ⟨l, i, rfl⟩ := Elem.box_snoc B (by intro e; subst e; simp at hc)
+  cases hS : Elem.licS (getI ps 0) l i with
+  | nil =>
+    rw [Elem.elementLic_nil _ _ _ hS] at hrun
+    injection hrun with h1 _; cases h1
+  | cons s0 r =>
+    rw [Elem.elementLic_cons _ _ _ _ _ hS] at hrun
+    obtain ⟨F1, ⟨F2a, _⟩, _⟩ := Elem.lic_facts _ l i s0 r hS
+    have A0 := F1 s0 F2a
+    split at hrun
+    · rename_i heq
+      have heq : s0 = (s0 :: r).getLastD s0 := by simpa using heq
+      injection hrun with _ h2; subst h2
+      obtain ⟨xs, y, rfl, hx, hy⟩ := Elem.inBox_snoc_elim t _ _ ht
+      rw [Elem.rel_lic]
+      unfold inDom at hy
+      simp only [] at hy
+      have hy0 : y.toNat = s0 := by omega
+      have hl := inBox_length hx
+      rw [List.length_set] at hl
+      have hb := inBox_get s0 hx (by rw [List.length_set]; omega)
+      rw [Elem.getDom_set_self _ _ _ A0.1.1.2.2] at hb
+      simp only [] at hb
+      refine ⟨by omega, ?_⟩
+      rw [hy0, Elem.getElem?_of_getI (by omega)]
+      congr 1; omega
+    · injection hrun with h1 _; cases h1
+
+theorem groundOk_elementLic : GroundOk .elementLic := by
+  intro ps B st B' t hc hne hrun hst hB'
+  have hent : st = .ent := by
+    rw [runAlg_elementLic] at hrun; injection hrun with hrun
+    simp only [Contract] at hc
+    obtain ⟨l, i, rfl⟩ := Elem.box_snoc B (by intro e; subst e; simp at hc)
+    cases hS : Elem.licS (getI ps 0) l i with
+    | nil =>
+      rw [Elem.elementLic_nil _ _ _ hS] at hrun
+      injection hrun with h1 _; exact absurd h1.symm hst
+    | cons s0 r =>
+      rw [Elem.elementLic_cons _ _ _ _ _ hS] at hrun
+      split at hrun
+      · injection hrun with h1 _; exact h1.symm
+      · rename_i hneq
+        injection hrun with _ h2
+        have := Elem.mem_pointBox t _ (hB' ▸ h2 ▸ (by simp :
+          ((((s0 : Nat) : Int), (((s0 :: r).getLastD s0 : Nat) : Int)) : Dom) ∈
+            l ++ [(((s0 : Nat) : Int), (((s0 :: r).getLastD s0 : Nat) : Int))]))
+        simp only [] at this
+        have e : s0 = (s0 :: r).getLastD s0 := by omega
+        exact absurd (by rw [← e]; simp) hneq
+  subst hent
+  subst hB'
+  exact entailOk_elementLic ps B _ hc hne hrun t (inBox_pointBox_self t)
+
+theorem contractMono_elementLic : ContractMono .elementLic := by
+  intro ps B B' hc hle
+  simp only [Contract] at *
+  rw [Box.le_length hle]; exact hc
+
+theorem safe_elementLic : Safe .elementLic := fun ps B _ _ => ⟨_, runAlg_elementLic ps B⟩
+
+theorem trigOk_elementLic : TrigOk .elementLic :=
+  Elem.trigOk_of_minMax _ sound_elementLic (fun _ _ _ => rfl)
+
+/-! ### element_liv -/
+
+def Elem.livS (l : Box) (i v : Dom) : List Nat :=
+  (idxRange i l.length).filter
+    (fun k => !(decide (v.2 < (getDom l k).1) || decide (v.1 > (getDom l k).2)))
+
+/-- the new value domain -/
+def Elem.livV (l : Box) (v : Dom) (S : List Nat) : Dom :=
+  (max v.1 (minL (S.map (fun k => (getDom l k).1))), min v.2 (maxL (S.map (fun k => (getDom l k).2))))
+
+theorem Elem.mem_livS (l : Box) (i v : Dom) (k : Nat) :
+    k ∈ Elem.livS l i v ↔
+      (i.1 ≤ (k : Int) ∧ (k : Int) ≤ i.2 ∧ k < l.length) ∧ (getDom l k).1 ≤ v.2 ∧ v.1 ≤ (getDom l k).2 := by
+  simp [Elem.livS, List.mem_filter, Elem.mem_idxRange]
+
+theorem Elem.livS_sorted (l : Box) (i v : Dom) : (Elem.livS l i v).Pairwise (· < ·) :=
+  List.Pairwise.filter _ (Elem.idxRange_sorted _ _)
+
+theorem Elem.front_snoc2 (l : Box) (i v : Dom) : Box.front (l ++ [i] ++ [v]) = l ++ [i] := by
+  simp [Box.front]
+
+theorem Elem.elementLiv_nil (ps : List Int) (l : Box) (i v : Dom) (h : Elem.livS l i v = []) :
+    elementLiv ps (l ++ [i] ++ [v]) = (.inc, l ++ [i] ++ [v]) := by
+  unfold Elem.livS at h
+  simp only [elementLiv, Elem.front_snoc, Elem.back_snoc, h]
+
+theorem Elem.elementLiv_cons (ps : List Int) (l : Box) (i v : Dom) (s0 : Nat) (r : List Nat)
+    (h : Elem.livS l i v = s0 :: r) :
+    elementLiv ps (l ++ [i] ++ [v]) =
+      if s0 == (s0 :: r).getLastD s0 then
+        ((if (Elem.livV l v (s0 :: r)).1 == (Elem.livV l v (s0 :: r)).2 then Status.ent else Status.cons),
+         l.set s0 (Elem.livV l v (s0 :: r)) ++ [(((s0 : Nat) : Int), (((s0 :: r).getLastD s0 : Nat) : Int))]
+           ++ [Elem.livV l v (s0 :: r)])
+      else (Status.cons, l ++ [(((s0 : Nat) : Int), (((s0 :: r).getLastD s0 : Nat) : Int))]
+           ++ [Elem.livV l v (s0 :: r)]) := by
+  unfold Elem.livS at h
+  simp only [elementLiv, Elem.front_snoc, Elem.back_snoc, h]
+  simp only [Elem.livV, List.append_assoc, List.cons_append, List.nil_append]
+  rfl
+
+theorem runAlg_elementLiv (ps : List Int) (B : Box) : runAlg .elementLiv ps B = .ok (elementLiv ps B) := rfl
+
+theorem Elem.rel_liv (ps xs : List Int) (y z : Int) :
+    rel .elementLiv ps (xs ++ [y] ++ [z]) ↔ 0 ≤ y ∧ xs[y.toNat]? = some z := by
+  simp only [rel, Elem.tFront_snoc, Elem.tBack_snoc]
+
+theorem Elem.box_snoc2 (B : Box) (h : 3 ≤ B.length) : ∃ l i v, B = l ++ [i] ++ [v] ∧ 1 ≤ l.length := by
+  obtain ⟨B1, v, rfl⟩ := Elem.box_snoc B (by intro e; subst e; simp at h)
+  obtain ⟨l, i, rfl⟩ := Elem.box_snoc B1 (by intro e; subst e; simp at h)
+  refine ⟨l, i, v, rfl, ?_⟩
+  simp at h; omega
+
+/-- facts about the supported indices `S = s0 :: r` of element_liv -/
+theorem Elem.liv_facts (l : Box) (i v : Dom) (s0 : Nat) (r : List Nat)
+    (h : Elem.livS l i v = s0 :: r) :
+    (∀ k ∈ s0 :: r, ((i.1 ≤ (k : Int) ∧ (k : Int) ≤ i.2 ∧ k < l.length) ∧
+        (getDom l k).1 ≤ v.2 ∧ v.1 ≤ (getDom l k).2) ∧
+      (s0 ≤ k ∧ k ≤ (s0 :: r).getLastD s0) ∧
+      minL ((s0 :: r).map (fun k => (getDom l k).1)) ≤ (getDom l k).1 ∧
+      (getDom l k).2 ≤ maxL ((s0 :: r).map (fun k => (getDom l k).2))) ∧
+    (s0 ∈ s0 :: r ∧ (s0 :: r).getLastD s0 ∈ s0 :: r) ∧
+    ((∃ k ∈ s0 :: r, (getDom l k).1 = minL ((s0 :: r).map (fun k => (getDom l k).1))) ∧
+     (∃ k ∈ s0 :: r, (getDom l k).2 = maxL ((s0 :: r).map (fun k => (getDom l k).2)))) ∧
+    (s0 = (s0 :: r).getLastD s0 → r = []) := by
+  have hp := Elem.livS_sorted l i v
+  rw [h] at hp
+  obtain ⟨f1, f2, f3⟩ := Elem.sorted_facts s0 r hp
+  refine ⟨fun k hk => ⟨?_, f2 k hk, ?_, ?_⟩, ⟨by simp, f1⟩, ⟨?_, ?_⟩, f3⟩
+  · rw [← h] at hk; exact (Elem.mem_livS l i v k).mp hk
+  · exact Elem.minL_le _ _ (List.mem_map.mpr ⟨k, hk, rfl⟩)
+  · exact Elem.le_maxL _ _ (List.mem_map.mpr ⟨k, hk, rfl⟩)
+  · have := Elem.minL_mem ((s0 :: r).map (fun k => (getDom l k).1)) (by simp)
+    exact List.mem_map.mp this
+  · have := Elem.maxL_mem ((s0 :: r).map (fun k => (getDom l k).2)) (by simp)
+    exact List.mem_map.mp this
+
+/-- a solution of element_liv inside `l ++ [i] ++ [v]` has its index among the supported ones -/
+theorem Elem.liv_sol_mem (ps : List Int) (l : Box) (i v : Dom) (xs : List Int) (y z : Int)
+    (hx : inBox xs l) (hy : inDom y i) (hz : inDom z v) (hrel : rel .elementLiv ps (xs ++ [y] ++ [z])) :
+    0 ≤ y ∧ y.toNat ∈ Elem.livS l i v ∧ getI xs y.toNat = z ∧
+      (getDom l y.toNat).1 ≤ z ∧ z ≤ (getDom l y.toNat).2 := by
+  obtain ⟨h0, hget⟩ := (Elem.rel_liv ps xs y z).mp hrel
+  obtain ⟨hk, e⟩ := Elem.getI_of_getElem? hget
+  have hl := inBox_length hx
+  have hb := inBox_get y.toNat hx (by omega)
+  unfold inDom at hy hz
+  refine ⟨h0, (Elem.mem_livS l i v _).mpr ⟨⟨by omega, by omega, by omega⟩, by omega, by omega⟩, e,
+    by omega, by omega⟩
+
+theorem Elem.inBox_snoc2_elim (t : List Int) (l : Box) (i v : Dom) (h : inBox t (l ++ [i] ++ [v])) :
+    ∃ xs y z, t = xs ++ [y] ++ [z] ∧ inBox xs l ∧ inDom y i ∧ inDom z v := by
+  obtain ⟨t1, z, rfl, h1, hz⟩ := Elem.inBox_snoc_elim t _ _ h
+  obtain ⟨xs, y, rfl, hx, hy⟩ := Elem.inBox_snoc_elim t1 _ _ h1
+  exact ⟨xs, y, z, rfl, hx, hy, hz⟩
+
+theorem sound_elementLiv : Sound .elementLiv := by
+  intro ps B st B' hc hne hrun
+  rw [runAlg_elementLiv] at hrun; injection hrun with hrun
+  simp only [Contract] at hc
+  obtain ⟨l, i, v, rfl, _⟩ := Elem.box_snoc2 B hc
+  obtain ⟨hne1, hnv⟩ := (Elem.nonempty_snoc _ v).mp hne
+  obtain ⟨hnl, hni⟩ := (Elem.nonempty_snoc l i).mp hne1
+  cases hS : Elem.livS l i v with
+  | nil =>
+    rw [Elem.elementLiv_nil _ _ _ _ hS] at hrun
+    injection hrun with h1 h2; subst h1; subst h2
+    refine ⟨fun h => absurd rfl h, fun _ t ht hrel => ?_⟩
+    obtain ⟨xs, y, z, rfl, hx, hy, hz⟩ := Elem.inBox_snoc2_elim t l i v ht
+    obtain ⟨_, hm, _⟩ := Elem.liv_sol_mem ps l i v xs y z hx hy hz hrel
+    rw [hS] at hm; simp at hm
+  | cons s0 r =>
+    rw [Elem.elementLiv_cons _ _ _ _ _ _ hS] at hrun
+    obtain ⟨F1, ⟨F2a, F2b⟩, ⟨⟨k1, hk1, e1⟩, ⟨k2, hk2, e2⟩⟩, _⟩ := Elem.liv_facts l i v s0 r hS
+    have A0 := F1 s0 F2a
+    have Al := F1 _ F2b
+    have A1 := F1 k1 hk1
+    have A2 := F1 k2 hk2
+    have N0 := Box.nonempty_get hnl s0 A0.1.1.2.2
+    split at hrun
+    · rename_i heq
+      have heq : s0 = (s0 :: r).getLastD s0 := by simpa using heq
+      injection hrun with h1 h2; subst h2
+      have : k1 = s0 := by omega
+      subst this
+      have : k2 = k1 := by omega
+      subst this
+      refine ⟨fun _ => ⟨?_, ?_, ?_⟩, fun h => ?_⟩
+      · rw [Elem.le_snoc, Elem.le_snoc]
+        refine ⟨⟨Elem.le_set _ _ _ (fun _ => ?_), ?_⟩, ?_⟩ <;> simp only [Elem.livV] <;> omega
+      · rw [Elem.nonempty_snoc, Elem.nonempty_snoc]
+        refine ⟨⟨Elem.nonempty_set _ _ _ hnl ?_, ?_⟩, ?_⟩ <;> simp only [Elem.livV] <;> omega
+      · intro t ht hrel
+        obtain ⟨xs, y, z, rfl, hx, hy, hz⟩ := Elem.inBox_snoc2_elim t l i v ht
+        obtain ⟨h0, hm, e, hz1, hz2⟩ := Elem.liv_sol_mem ps l i v xs y z hx hy hz hrel
+        rw [hS] at hm
+        have At := F1 _ hm
+        have : y.toNat = k2 := by omega
+        rw [this] at e hz1 hz2
+        unfold inDom at hz
+        rw [Elem.inBox_snoc, Elem.inBox_snoc]
+        refine ⟨⟨Elem.inBox_set_dom _ _ _ _ hx (fun _ => ?_), ?_⟩, ?_⟩ <;>
+          unfold inDom <;> simp only [Elem.livV] <;> omega
+      · subst h; split at h1 <;> cases h1
+    · injection hrun with h1 h2; subst h1; subst h2
+      refine ⟨fun _ => ⟨?_, ?_, ?_⟩, fun h => by cases h⟩
+      · rw [Elem.le_snoc, Elem.le_snoc]
+        refine ⟨⟨Box.le_refl _, ?_⟩, ?_⟩ <;> simp only [Elem.livV] <;> omega
+      · rw [Elem.nonempty_snoc, Elem.nonempty_snoc]
+        refine ⟨⟨hnl, ?_⟩, ?_⟩ <;> simp only [Elem.livV] <;> omega
+      · intro t ht hrel
+        obtain ⟨xs, y, z, rfl, hx, hy, hz⟩ := Elem.inBox_snoc2_elim t l i v ht
+        obtain ⟨h0, hm, e, hz1, hz2⟩ := Elem.liv_sol_mem ps l i v xs y z hx hy hz hrel
+        rw [hS] at hm
+        have At := F1 _ hm
+        unfold inDom at hz
+        rw [Elem.inBox_snoc, Elem.inBox_snoc]
+        refine ⟨⟨hx, ?_⟩, ?_⟩ <;> unfold inDom <;> simp only [Elem.livV] <;> omega
+
+theorem entailOk_elementLiv : EntailOk .elementLiv := by
+  intro ps B B' hc _ hrun t ht
+  rw [runAlg_elementLiv] at hrun; injection hrun with hrun
+  simp only [Contract] at hc
+  obtain ⟨l, i, v, rfl, _⟩ := Elem.box_snoc2 B hc
+  cases hS : Elem.livS l i v with
+  | nil =>
+    rw [Elem.elementLiv_nil _ _ _ _ hS] at hrun
+    injection hrun with h1 _; cases h1
+  | cons s0 r =>
+    rw [Elem.elementLiv_cons _ _ _ _ _ _ hS] at hrun
+    obtain ⟨F1, ⟨F2a, _⟩, _, _⟩ := Elem.liv_facts l i v s0 r hS
+    have A0 := F1 s0 F2a
+    split at hrun
+    · rename_i heq
+      have heq : s0 = (s0 :: r).getLastD s0 := by simpa using heq
+      injection hrun with h1 h2; subst h2
+      split at h1
+      · rename_i hv
+        have hv : (Elem.livV l v (s0 :: r)).1 = (Elem.livV l v (s0 :: r)).2 := by simpa using hv
+        obtain ⟨xs, y, z, rfl, hx, hy, hz⟩ := Elem.inBox_snoc2_elim t _ _ _ ht
+        rw [Elem.rel_liv]
+        unfold inDom at hy hz
+        simp only [] at hy
+        have hy0 : y.toNat = s0 := by omega
+        have hl := inBox_length hx
+        rw [List.length_set] at hl
+        have hb := inBox_get s0 hx (by rw [List.length_set]; omega)
+        rw [Elem.getDom_set_self _ _ _ A0.1.1.2.2] at hb
+        refine ⟨by omega, ?_⟩
+        rw [hy0, Elem.getElem?_of_getI (by omega)]
+        congr 1; omega
+      · cases h1
+    · injection hrun with h1 _; cases h1
+
+theorem groundOk_elementLiv : GroundOk .elementLiv := by
+  intro ps B st B' t hc hne hrun hst hB'
+  have hent : st = .ent := by
+    rw [runAlg_elementLiv] at hrun; injection hrun with hrun
+    simp only [Contract] at hc
+    obtain ⟨l, i, v, rfl, _⟩ := Elem.box_snoc2 B hc
+    cases hS : Elem.livS l i v with
+    | nil =>
+      rw [Elem.elementLiv_nil _ _ _ _ hS] at hrun
+      injection hrun with h1 _; exact absurd h1.symm hst
+    | cons s0 r =>
+      rw [Elem.elementLiv_cons _ _ _ _ _ _ hS] at hrun
+      split at hrun
+      · injection hrun with h1 h2
+        have := Elem.mem_pointBox t (Elem.livV l v (s0 :: r)) (hB' ▸ h2 ▸ (by simp))
+        rw [← h1, if_pos (by simpa using this)]
+      · rename_i hneq
+        injection hrun with _ h2
+        have := Elem.mem_pointBox t (((s0 : Nat) : Int), (((s0 :: r).getLastD s0 : Nat) : Int))
+          (hB' ▸ h2 ▸ (by simp))
+        simp only [] at this
+        have e : s0 = (s0 :: r).getLastD s0 := by omega
+        exact absurd (by rw [← e]; simp) hneq
+  subst hent
+  subst hB'
+  exact entailOk_elementLiv ps B _ hc hne hrun t (inBox_pointBox_self t)
+
+theorem contractMono_elementLiv : ContractMono .elementLiv := by
+  intro ps B B' hc hle
+  simp only [Contract] at *
+  rw [Box.le_length hle]; exact hc
+
+theorem safe_elementLiv : Safe .elementLiv := fun ps B _ _ => ⟨_, runAlg_elementLiv ps B⟩
+
+theorem trigOk_elementLiv : TrigOk .elementLiv :=
+  Elem.trigOk_of_minMax _ sound_elementLiv (fun _ _ _ => rfl)
+
+/-! ### Priority 2: exactness -/
+
+theorem exact_elementIv : Exact .elementIv := by
+  intro ps B st B' hc hne hrun hst
+  rw [runAlg_elementIv] at hrun; injection hrun with hrun
+  simp only [Contract] at hc
+  obtain ⟨hl, _⟩ := hc
+  match B, hl, hne, hrun with
+  | [i, v], _, hne, hrun =>
+    cases hS : Elem.ivS ps i v with
+    | nil =>
+      rw [Elem.elementIv_nil _ _ _ hS] at hrun
+      injection hrun with h1 _; exact absurd h1.symm hst
+    | cons s0 r =>
+      rw [Elem.elementIv_cons _ _ _ _ _ hS] at hrun
+      injection hrun with h1 h2
+      obtain ⟨F1, ⟨F2a, F2b⟩, ⟨⟨k1, hk1, e1⟩, ⟨k2, hk2, e2⟩⟩, _⟩ := Elem.iv_facts ps i v s0 r hS
+      have hv : v.1 ≤ v.2 := hne v (by simp)
+      have A0 := F1 s0 F2a
+      have Al := F1 _ F2b
+      have A1 := F1 k1 hk1
+      have A2 := F1 k2 hk2
+      generalize hmn : minL (List.map (getI ps) (s0 :: r)) = mn at *
+      generalize hmx : maxL (List.map (getI ps) (s0 :: r)) = mx at *
+      generalize hsl : (s0 :: r).getLastD s0 = sl at *
+      subst h2
+      -- every supported index gives a solution inside the result
+      have hsol : ∀ k ∈ s0 :: r,
+          inBox [((k : Nat) : Int), getI ps k] [(((s0 : Nat) : Int), ((sl : Nat) : Int)), (max v.1 mn, min v.2 mx)] ∧
+          rel .elementIv ps [((k : Nat) : Int), getI ps k] := by
+        intro k hk
+        have Ak := F1 k hk
+        refine ⟨?_, ?_⟩
+        · simp only [inBox, inDom, and_true]; omega
+        · simp only [rel]
+          have e0 : getI [((k : Nat) : Int), getI ps k] 0 = (k : Int) := rfl
+          have e1 : getI [((k : Nat) : Int), getI ps k] 1 = getI ps k := rfl
+          rw [e0, e1, Int.toNat_natCast]
+          exact ⟨by omega, Elem.getElem?_of_getI Ak.1.1.2.2⟩
+      constructor
+      · intro k hk
+        match k, hk with
+        | 0, _ =>
+          exact ⟨⟨_, (hsol s0 F2a).1, (hsol s0 F2a).2, rfl⟩, ⟨_, (hsol sl F2b).1, (hsol sl F2b).2, rfl⟩⟩
+        | 1, _ =>
+          refine ⟨⟨_, (hsol k1 hk1).1, (hsol k1 hk1).2, ?_⟩, ⟨_, (hsol k2 hk2).1, (hsol k2 hk2).2, ?_⟩⟩
+          · show getI ps k1 = max v.1 mn
+            omega
+          · show getI ps k2 = min v.2 mx
+            omega
+      · have hS' : Elem.ivS ps (((s0 : Nat) : Int), ((sl : Nat) : Int)) (max v.1 mn, min v.2 mx) = s0 :: r := by
+          rw [← hS]
+          apply Elem.sorted_ext _ _ (Elem.ivS_sorted _ _ _) (Elem.ivS_sorted _ _ _)
+          intro k
+          rw [Elem.mem_ivS, Elem.mem_ivS]
+          constructor
+          · intro h; simp only [] at h; omega
+          · intro h
+            have Ak := F1 k (hS ▸ (Elem.mem_ivS ps i v k).mpr h)
+            simp only []; omega
+        have e := Elem.elementIv_cons ps _ _ s0 r hS'
+        rw [hmn, hmx, hsl] at e
+        have ev : ((max (max v.1 mn) mn, min (min v.2 mx) mx) : Dom) = (max v.1 mn, min v.2 mx) := by
+          apply Prod.ext <;> simp only [] <;> omega
+        simp only [] at e
+        rw [ev] at e
+        exact ⟨_, by rw [runAlg_elementIv, e], by split <;> simp⟩
+
+/-! witness tuples: all variables at the bound selected by `sel`, except position `j` -/
+
+theorem Elem.getI_append_left (xs ys : List Int) (k : Nat) (h : k < xs.length) :
+    getI (xs ++ ys) k = getI xs k := by
+  simp [getI, List.getD, List.getElem?_append_left h]
+
+theorem Elem.getI_snoc_last (xs : List Int) (y : Int) : getI (xs ++ [y]) xs.length = y := by
+  simp [getI, List.getD]
+
+theorem Elem.getDom_append_left (l l2 : Box) (k : Nat) (h : k < l.length) :
+    getDom (l ++ l2) k = getDom l k := by
+  simp [getDom, List.getD, List.getElem?_append_left h]
+
+theorem Elem.getDom_snoc_last (l : Box) (d : Dom) : getDom (l ++ [d]) l.length = d := by
+  simp [getDom, List.getD]
+
+theorem Elem.getI_set_ne (xs : List Int) (j k : Nat) (x : Int) (h : j ≠ k) :
+    getI (xs.set j x) k = getI xs k := by
+  simp [getI, List.getD, List.getElem?_set_ne h]
+
+theorem Elem.getI_set_self (xs : List Int) (j : Nat) (x : Int) (h : j < xs.length) :
+    getI (xs.set j x) j = x := by
+  simp [getI, List.getD, h]
+
+theorem Elem.getI_map_sel (l : Box) (sel : Dom → Int) (k : Nat) (h : k < l.length) :
+    getI (l.map sel) k = sel (getDom l k) := by
+  simp [getI, getDom, List.getD, h]
+
+theorem Elem.inBox_map_sel (sel : Dom → Int) (hsel : ∀ d : Dom, d.1 ≤ d.2 → inDom (sel d) d) :
+    ∀ (l : Box), l.Nonempty → inBox (l.map sel) l
+  | [], _ => trivial
+  | d :: l, h =>
+    ⟨hsel d (Box.nonempty_cons.mp h).1, Elem.inBox_map_sel sel hsel l (Box.nonempty_cons.mp h).2⟩
+
+theorem Elem.inBox_set_val : ∀ (xs : List Int) (l : Box) (k : Nat) (x : Int), inBox xs l →
+    (k < l.length → inDom x (getDom l k)) → inBox (xs.set k x) l
+  | [], [], _, _, _, _ => by simp [inBox]
+  | y :: xs, e :: l, 0, x, h, hd => ⟨hd (by simp), h.2⟩
+  | y :: xs, e :: l, k + 1, x, h, hd =>
+    ⟨h.1, Elem.inBox_set_val xs l k x h.2 (fun hk => hd (by simpa using hk))⟩
+  | [], _ :: _, _, _, h, _ => by simp [inBox] at h
+  | _ :: _, [], _, _, h, _ => by simp [inBox] at h
+
+theorem Elem.sel_fst (d : Dom) (h : d.1 ≤ d.2) : inDom (Prod.fst d) d := ⟨Int.le_refl _, h⟩
+theorem Elem.sel_snd (d : Dom) (h : d.1 ≤ d.2) : inDom (Prod.snd d) d := ⟨h, Int.le_refl _⟩
+
+theorem Elem.witness (l : Box) (sel : Dom → Int) (hsel : ∀ d : Dom, d.1 ≤ d.2 → inDom (sel d) d)
+    (hn : l.Nonempty) (j : Nat) (hj : j < l.length) (x : Int) (hx : inDom x (getDom l j)) :
+    inBox ((l.map sel).set j x) l ∧ ((l.map sel).set j x)[j]? = some x ∧
+    (∀ k, k < l.length → k ≠ j → getI ((l.map sel).set j x) k = sel (getDom l k)) ∧
+    getI ((l.map sel).set j x) j = x := by
+  refine ⟨Elem.inBox_set_val _ _ _ _ (Elem.inBox_map_sel sel hsel l hn) (fun _ => hx), ?_, ?_, ?_⟩
+  · simp [hj]
+  · intro k hk hne
+    rw [Elem.getI_set_ne _ _ _ _ (Ne.symm hne), Elem.getI_map_sel _ _ _ hk]
+  · exact Elem.getI_set_self _ _ _ (by simpa using hj)
+
+theorem Elem.lic_witness (ps : List Int) (l : Box) (a b : Nat) (hn : l.Nonempty) (j : Nat)
+    (hj : j < l.length) (hx : inDom (getI ps 0) (getDom l j)) (ha : a ≤ j) (hb : j ≤ b)
+    (sel : Dom → Int) (hsel : ∀ d : Dom, d.1 ≤ d.2 → inDom (sel d) d) :
+    ∃ t, inBox t (l ++ [((a : Int), (b : Int))]) ∧ rel .elementLic ps t ∧
+      (∀ k, k < l.length → k ≠ j → getI t k = sel (getDom l k)) ∧
+      getI t j = getI ps 0 ∧ getI t l.length = (j : Int) := by
+  obtain ⟨w1, w2, w3, w4⟩ := Elem.witness l sel hsel hn j hj _ hx
+  have hlen : ((l.map sel).set j (getI ps 0)).length = l.length := by simp
+  refine ⟨(l.map sel).set j (getI ps 0) ++ [(j : Int)], ?_, ?_, ?_, ?_, ?_⟩
+  · rw [Elem.inBox_snoc]; exact ⟨w1, by unfold inDom; simp only []; omega⟩
+  · rw [Elem.rel_lic, Int.toNat_natCast]; exact ⟨by omega, w2⟩
+  · intro k hk hne
+    rw [Elem.getI_append_left _ _ _ (by omega)]; exact w3 k hk hne
+  · rw [Elem.getI_append_left _ _ _ (by omega)]; exact w4
+  · rw [← hlen]; exact Elem.getI_snoc_last _ _
+
+theorem exact_elementLic : Exact .elementLic := by
+  intro ps B st B' hc hne hrun hst
+  rw [runAlg_elementLic] at hrun; injection hrun with hrun
+  simp only [Contract] at hc
+  obtain ⟨l, i, rfl⟩ := Elem.box_snoc B (by intro e; subst e; simp at hc)
+  obtain ⟨hnl, hni⟩ := (Elem.nonempty_snoc l i).mp hne
+  cases hS : Elem.licS (getI ps 0) l i with
+  | nil =>
+    rw [Elem.elementLic_nil _ _ _ hS] at hrun
+    injection hrun with h1 _; exact absurd h1.symm hst
+  | cons s0 r =>
+    rw [Elem.elementLic_cons _ _ _ _ _ hS] at hrun
+    obtain ⟨F1, ⟨F2a, F2b⟩, f3⟩ := Elem.lic_facts _ l i s0 r hS
+    have A0 := F1 s0 F2a
+    have Al := F1 _ F2b
+    split at hrun
+    · -- a single supported index: `l[s0]` is fixed to `c`
+      rename_i heq
+      have heq : s0 = (s0 :: r).getLastD s0 := by simpa using heq
+      have hr := f3 heq
+      subst hr
+      injection hrun with _ h2; subst h2
+      have hsl : [s0].getLastD s0 = s0 := rfl
+      rw [hsl]
+      have hn' : Box.Nonempty (l.set s0 (getI ps 0, getI ps 0)) :=
+        Elem.nonempty_set _ _ _ hnl (Int.le_refl _)
+      have hlen' : (l.set s0 (getI ps 0, getI ps 0)).length = l.length := by simp
+      have hd0 := Elem.getDom_set_self l s0 (getI ps 0, getI ps 0) A0.1.1.2.2
+      have hW := fun sel hsel => Elem.lic_witness ps (l.set s0 (getI ps 0, getI ps 0)) s0 s0 hn' s0
+        (by omega) (by rw [hd0]; exact ⟨Int.le_refl _, Int.le_refl _⟩) (Nat.le_refl _) (Nat.le_refl _)
+        sel hsel
+      constructor
+      · intro k hk
+        obtain ⟨t1, a1, b1, c1, d1, e1⟩ := hW Prod.fst Elem.sel_fst
+        obtain ⟨t2, a2, b2, c2, d2, e2⟩ := hW Prod.snd Elem.sel_snd
+        refine ⟨⟨t1, a1, b1, ?_⟩, ⟨t2, a2, b2, ?_⟩⟩
+        · by_cases hk' : k < l.length
+          · rw [Elem.getDom_append_left _ _ _ (by omega)]
+            by_cases hks : k = s0
+            · subst hks; rw [d1, hd0]
+            · exact c1 k (by omega) hks
+          · have : k = (l.set s0 (getI ps 0, getI ps 0)).length := by simp at hk; omega
+            rw [this, e1, Elem.getDom_snoc_last]
+        · by_cases hk' : k < l.length
+          · rw [Elem.getDom_append_left _ _ _ (by omega)]
+            by_cases hks : k = s0
+            · subst hks; rw [d2, hd0]
+            · exact c2 k (by omega) hks
+          · have : k = (l.set s0 (getI ps 0, getI ps 0)).length := by simp at hk; omega
+            rw [this, e2, Elem.getDom_snoc_last]
+      · have hS' : Elem.licS (getI ps 0) (l.set s0 (getI ps 0, getI ps 0))
+            (((s0 : Nat) : Int), ((s0 : Nat) : Int)) = [s0] := by
+          apply Elem.sorted_ext _ _ (Elem.licS_sorted _ _ _) (by simp)
+          intro k
+          rw [Elem.mem_licS]
+          constructor
+          · intro h; simp only [] at h; simp; omega
+          · intro h
+            have : k = s0 := by simpa using h
+            subst this
+            rw [hd0]; simp only [hlen']; omega
+        have e := Elem.elementLic_cons ps _ _ s0 [] hS'
+        rw [hsl, if_pos (by simp), List.set_set] at e
+        exact ⟨_, by rw [runAlg_elementLic, e], by simp⟩
+    · -- at least two supported indices: only the index is narrowed
+      rename_i hneq
+      have hneq : s0 ≠ (s0 :: r).getLastD s0 := by simpa using hneq
+      injection hrun with _ h2; subst h2
+      generalize hsl : (s0 :: r).getLastD s0 = sl at *
+      have hW := fun j (hj : j ∈ s0 :: r) sel hsel =>
+        Elem.lic_witness ps l s0 sl hnl j (F1 j hj).1.1.2.2 ⟨(F1 j hj).1.2.1, (F1 j hj).1.2.2⟩
+          (F1 j hj).2.1 (F1 j hj).2.2 sel hsel
+      constructor
+      · intro k hk
+        by_cases hk' : k < l.length
+        · rw [Elem.getDom_append_left _ _ _ hk']
+          -- a supported index different from `k`
+          have hj : ∃ j ∈ s0 :: r, k ≠ j := by
+            by_cases hks : k = s0
+            · exact ⟨sl, F2b, by omega⟩
+            · exact ⟨s0, F2a, hks⟩
+          obtain ⟨j, hjm, hkj⟩ := hj
+          obtain ⟨t1, a1, b1, c1, _, _⟩ := hW j hjm Prod.fst Elem.sel_fst
+          obtain ⟨t2, a2, b2, c2, _, _⟩ := hW j hjm Prod.snd Elem.sel_snd
+          exact ⟨⟨t1, a1, b1, c1 k hk' hkj⟩, ⟨t2, a2, b2, c2 k hk' hkj⟩⟩
+        · have : k = l.length := by simp at hk; omega
+          subst this
+          rw [Elem.getDom_snoc_last]
+          obtain ⟨t1, a1, b1, _, _, e1⟩ := hW s0 F2a Prod.fst Elem.sel_fst
+          obtain ⟨t2, a2, b2, _, _, e2⟩ := hW sl F2b Prod.fst Elem.sel_fst
+          exact ⟨⟨t1, a1, b1, e1⟩, ⟨t2, a2, b2, e2⟩⟩
+      · have hS' : Elem.licS (getI ps 0) l (((s0 : Nat) : Int), ((sl : Nat) : Int)) = s0 :: r := by
+          rw [← hS]
+          apply Elem.sorted_ext _ _ (Elem.licS_sorted _ _ _) (Elem.licS_sorted _ _ _)
+          intro k
+          rw [Elem.mem_licS, Elem.mem_licS]
+          constructor
+          · intro h; simp only [] at h; omega
+          · intro h
+            have Ak := F1 k (hS ▸ (Elem.mem_licS _ l i k).mpr h)
+            simp only []; omega
+        have e := Elem.elementLic_cons ps _ _ s0 r hS'
+        rw [hsl, if_neg (by simpa using hneq)] at e
+        exact ⟨_, by rw [runAlg_elementLic, e], by simp⟩
+
+theorem Elem.liv_witness (ps : List Int) (l : Box) (a b : Nat) (v' : Dom) (hn : l.Nonempty) (j : Nat)
+    (hj : j < l.length) (x : Int) (hx : inDom x (getDom l j)) (hxv : inDom x v') (ha : a ≤ j) (hb : j ≤ b)
+    (sel : Dom → Int) (hsel : ∀ d : Dom, d.1 ≤ d.2 → inDom (sel d) d) :
+    ∃ t, inBox t (l ++ [((a : Int), (b : Int))] ++ [v']) ∧ rel .elementLiv ps t ∧
+      (∀ k, k < l.length → k ≠ j → getI t k = sel (getDom l k)) ∧
+      getI t j = x ∧ getI t l.length = (j : Int) ∧ getI t (l.length + 1) = x := by
+  obtain ⟨w1, w2, w3, w4⟩ := Elem.witness l sel hsel hn j hj x hx
+  have hlen : ((l.map sel).set j x).length = l.length := by simp
+  have hlen2 : ((l.map sel).set j x ++ [(j : Int)]).length = l.length + 1 := by simp
+  refine ⟨(l.map sel).set j x ++ [(j : Int)] ++ [x], ?_, ?_, ?_, ?_, ?_, ?_⟩
+  · rw [Elem.inBox_snoc, Elem.inBox_snoc]; exact ⟨⟨w1, by unfold inDom; simp only []; omega⟩, hxv⟩
+  · rw [Elem.rel_liv, Int.toNat_natCast]; exact ⟨by omega, w2⟩
+  · intro k hk hne
+    rw [Elem.getI_append_left _ _ _ (by omega), Elem.getI_append_left _ _ _ (by omega)]
+    exact w3 k hk hne
+  · rw [Elem.getI_append_left _ _ _ (by omega), Elem.getI_append_left _ _ _ (by omega)]; exact w4
+  · rw [Elem.getI_append_left _ _ _ (by omega), ← hlen]; exact Elem.getI_snoc_last _ _
+  · rw [← hlen2]; exact Elem.getI_snoc_last _ _
+
+theorem Elem.getDom_snoc2 (l : Box) (d1 d2 : Dom) :
+    (∀ k, k < l.length → getDom (l ++ [d1] ++ [d2]) k = getDom l k) ∧
+    getDom (l ++ [d1] ++ [d2]) l.length = d1 ∧ getDom (l ++ [d1] ++ [d2]) (l.length + 1) = d2 := by
+  refine ⟨fun k hk => ?_, ?_, ?_⟩
+  · rw [Elem.getDom_append_left _ _ _ (by simp; omega), Elem.getDom_append_left _ _ _ hk]
+  · rw [Elem.getDom_append_left _ _ _ (by simp), Elem.getDom_snoc_last]
+  · have : (l ++ [d1]).length = l.length + 1 := by simp
+    rw [← this, Elem.getDom_snoc_last]
+
+theorem exact_elementLiv : Exact .elementLiv := by
+  intro ps B st B' hc hne hrun hst
+  have hs := (sound_elementLiv ps B st B' hc hne hrun).1 hst
+  rw [runAlg_elementLiv] at hrun; injection hrun with hrun
+  simp only [Contract] at hc
+  obtain ⟨l, i, v, rfl, _⟩ := Elem.box_snoc2 B hc
+  obtain ⟨hne1, hnv⟩ := (Elem.nonempty_snoc _ v).mp hne
+  obtain ⟨hnl, hni⟩ := (Elem.nonempty_snoc l i).mp hne1
+  cases hS : Elem.livS l i v with
+  | nil =>
+    rw [Elem.elementLiv_nil _ _ _ _ hS] at hrun
+    injection hrun with h1 _; exact absurd h1.symm hst
+  | cons s0 r =>
+    rw [Elem.elementLiv_cons _ _ _ _ _ _ hS] at hrun
+    obtain ⟨F1, ⟨F2a, F2b⟩, ⟨⟨k1, hk1, e1⟩, ⟨k2, hk2, e2⟩⟩, f3⟩ := Elem.liv_facts l i v s0 r hS
+    have A0 := F1 s0 F2a
+    have Al := F1 _ F2b
+    split at hrun
+    · -- a single supported index: `l[s0]` and `v` both become `l[s0] ∩ v`
+      rename_i heq
+      have heq : s0 = (s0 :: r).getLastD s0 := by simpa using heq
+      have hr := f3 heq
+      subst hr
+      injection hrun with _ h2; subst h2
+      have hsl : [s0].getLastD s0 = s0 := rfl
+      rw [hsl] at hs ⊢
+      generalize hV : Elem.livV l v [s0] = V at *
+      obtain ⟨_, hne', _⟩ := hs
+      obtain ⟨hne1', hnV⟩ := (Elem.nonempty_snoc _ V).mp hne'
+      obtain ⟨hn', _⟩ := (Elem.nonempty_snoc _ _).mp hne1'
+      have hlen' : (l.set s0 V).length = l.length := by simp
+      have hd0 := Elem.getDom_set_self l s0 V A0.1.1.2.2
+      obtain ⟨g1, g2, g3⟩ := Elem.getDom_snoc2 (l.set s0 V) (((s0 : Nat) : Int), ((s0 : Nat) : Int)) V
+      have hW := fun x (hx : inDom x V) sel hsel => Elem.liv_witness ps (l.set s0 V) s0 s0 V hn' s0
+        (by omega) x (by rw [hd0]; exact hx) hx (Nat.le_refl _) (Nat.le_refl _) sel hsel
+      constructor
+      · intro k hk
+        obtain ⟨t1, a1, b1, c1, d1, e1, f1⟩ := hW V.1 ⟨Int.le_refl _, hnV⟩ Prod.fst Elem.sel_fst
+        obtain ⟨t2, a2, b2, c2, d2, e2, f2⟩ := hW V.2 ⟨hnV, Int.le_refl _⟩ Prod.snd Elem.sel_snd
+        refine ⟨⟨t1, a1, b1, ?_⟩, ⟨t2, a2, b2, ?_⟩⟩
+        · by_cases hk' : k < l.length
+          · rw [g1 k (by omega)]
+            by_cases hks : k = s0
+            · subst hks; rw [d1, hd0]
+            · exact c1 k (by omega) hks
+          · by_cases hkl : k = l.length
+            · rw [hkl, ← hlen', e1, g2]
+            · have : k = (l.set s0 V).length + 1 := by simp at hk; omega
+              rw [this, f1, g3]
+        · by_cases hk' : k < l.length
+          · rw [g1 k (by omega)]
+            by_cases hks : k = s0
+            · subst hks; rw [d2, hd0]
+            · exact c2 k (by omega) hks
+          · by_cases hkl : k = l.length
+            · rw [hkl, ← hlen', e2, g2]
+            · have : k = (l.set s0 V).length + 1 := by simp at hk; omega
+              rw [this, f2, g3]
+      · have hS' : Elem.livS (l.set s0 V) (((s0 : Nat) : Int), ((s0 : Nat) : Int)) V = [s0] := by
+          apply Elem.sorted_ext _ _ (Elem.livS_sorted _ _ _) (by simp)
+          intro k
+          rw [Elem.mem_livS]
+          constructor
+          · intro h; simp only [] at h; simp; omega
+          · intro h
+            have : k = s0 := by simpa using h
+            subst this
+            rw [hd0]; simp only [hlen']; omega
+        have e := Elem.elementLiv_cons ps _ _ _ s0 [] hS'
+        have hV' : Elem.livV (l.set s0 V) V [s0] = V := by
+          simp only [Elem.livV, List.map_cons, List.map_nil, minL, maxL, hd0]
+          apply Prod.ext <;> simp only [] <;> omega
+        rw [hsl, if_pos (by simp), hV', List.set_set] at e
+        exact ⟨_, by rw [runAlg_elementLiv, e], by split <;> simp⟩
+    · -- at least two supported indices
+      rename_i hneq
+      have hneq : s0 ≠ (s0 :: r).getLastD s0 := by simpa using hneq
+      injection hrun with _ h2; subst h2
+      obtain ⟨_, hne', _⟩ := hs
+      obtain ⟨_, hnV⟩ := (Elem.nonempty_snoc _ _).mp hne'
+      simp only [Elem.livV] at hnV
+      generalize hsl : (s0 :: r).getLastD s0 = sl at *
+      generalize hmn : minL (List.map (fun k => (getDom l k).1) (s0 :: r)) = mn at *
+      generalize hmx : maxL (List.map (fun k => (getDom l k).2) (s0 :: r)) = mx at *
+      have hVe : Elem.livV l v (s0 :: r) = (max v.1 mn, min v.2 mx) := by
+        simp only [Elem.livV, hmn, hmx]
+      rw [hVe]
+      obtain ⟨g1, g2, g3⟩ := Elem.getDom_snoc2 l (((s0 : Nat) : Int), ((sl : Nat) : Int)) (max v.1 mn, min v.2 mx)
+      -- a witness through any supported index `j` with any common value `x`
+      have hW := fun j (hj : j ∈ s0 :: r) x (hx : inDom x (getDom l j))
+          (hxv : inDom x (max v.1 mn, min v.2 mx)) sel hsel =>
+        Elem.liv_witness ps l s0 sl (max v.1 mn, min v.2 mx) hnl j (F1 j hj).1.1.2.2 x hx hxv
+          (F1 j hj).2.1.1 (F1 j hj).2.1.2 sel hsel
+      -- the common value `max l[j].min v.min` of a supported index
+      have hX : ∀ j ∈ s0 :: r, inDom (max (getDom l j).1 v.1) (getDom l j) ∧
+          inDom (max (getDom l j).1 v.1) (max v.1 mn, min v.2 mx) := by
+        intro j hj
+        have Aj := F1 j hj
+        have Nj := Box.nonempty_get hnl j Aj.1.1.2.2
+        unfold inDom; simp only []; omega
+      constructor
+      · intro k hk
+        by_cases hk' : k < l.length
+        · rw [g1 k hk']
+          have hj : ∃ j ∈ s0 :: r, k ≠ j := by
+            by_cases hks : k = s0
+            · exact ⟨sl, F2b, by omega⟩
+            · exact ⟨s0, F2a, hks⟩
+          obtain ⟨j, hjm, hkj⟩ := hj
+          obtain ⟨t1, a1, b1, c1, _⟩ := hW j hjm _ (hX j hjm).1 (hX j hjm).2 Prod.fst Elem.sel_fst
+          obtain ⟨t2, a2, b2, c2, _⟩ := hW j hjm _ (hX j hjm).1 (hX j hjm).2 Prod.snd Elem.sel_snd
+          exact ⟨⟨t1, a1, b1, c1 k hk' hkj⟩, ⟨t2, a2, b2, c2 k hk' hkj⟩⟩
+        · by_cases hkl : k = l.length
+          · subst hkl
+            rw [g2]
+            obtain ⟨t1, a1, b1, _, _, e1, _⟩ := hW s0 F2a _ (hX s0 F2a).1 (hX s0 F2a).2 Prod.fst Elem.sel_fst
+            obtain ⟨t2, a2, b2, _, _, e2, _⟩ := hW sl F2b _ (hX sl F2b).1 (hX sl F2b).2 Prod.fst Elem.sel_fst
+            exact ⟨⟨t1, a1, b1, e1⟩, ⟨t2, a2, b2, e2⟩⟩
+          · have : k = l.length + 1 := by simp at hk; omega
+            subst this
+            rw [g3]
+            have A1 := F1 k1 hk1
+            have A2 := F1 k2 hk2
+            have N1 := Box.nonempty_get hnl k1 A1.1.1.2.2
+            have N2 := Box.nonempty_get hnl k2 A2.1.1.2.2
+            obtain ⟨t1, a1, b1, _, _, _, f1⟩ := hW k1 hk1 (max v.1 mn)
+              (by unfold inDom; omega) (by unfold inDom; simp only []; omega) Prod.fst Elem.sel_fst
+            obtain ⟨t2, a2, b2, _, _, _, f2⟩ := hW k2 hk2 (min v.2 mx)
+              (by unfold inDom; omega) (by unfold inDom; simp only []; omega) Prod.fst Elem.sel_fst
+            exact ⟨⟨t1, a1, b1, f1⟩, ⟨t2, a2, b2, f2⟩⟩
+      · have hS' : Elem.livS l (((s0 : Nat) : Int), ((sl : Nat) : Int)) (max v.1 mn, min v.2 mx) = s0 :: r := by
+          rw [← hS]
+          apply Elem.sorted_ext _ _ (Elem.livS_sorted _ _ _) (Elem.livS_sorted _ _ _)
+          intro k
+          rw [Elem.mem_livS, Elem.mem_livS]
+          constructor
+          · intro h; simp only [] at h; omega
+          · intro h
+            have Ak := F1 k (hS ▸ (Elem.mem_livS l i v k).mpr h)
+            have Nk := Box.nonempty_get hnl k Ak.1.1.2.2
+            simp only []; omega
+        have e := Elem.elementLiv_cons ps _ _ _ s0 r hS'
+        have hV' : Elem.livV l (max v.1 mn, min v.2 mx) (s0 :: r) = (max v.1 mn, min v.2 mx) := by
+          simp only [Elem.livV, hmn, hmx]
+          apply Prod.ext <;> simp only [] <;> omega
+        rw [hsl, if_neg (by simpa using hneq), hV'] at e
+        exact ⟨_, by rw [runAlg_elementLiv, e], by simp⟩
 
 end Nucs
